@@ -1,0 +1,108 @@
+//go:build verif
+
+package simpledb
+
+import (
+	"sync"
+	"sync/atomic"
+
+	"github.com/thomasjungblut/go-sstables/simpledb/proto"
+	"github.com/thomasjungblut/go-sstables/sstables"
+	sProto "github.com/thomasjungblut/go-sstables/sstables/proto"
+	pb "google.golang.org/protobuf/proto"
+)
+
+// Verification-only hooks (build tag verif). Named points in the flush/compaction paths count how often they
+// were passed and optionally run a callback (delay, yield, barrier) installed by a harness.
+
+var verifCallbacks sync.Map // name -> func()
+var verifCounters sync.Map  // name -> *int64
+
+func verifPoint(name string) {
+	c, ok := verifCounters.Load(name)
+	if !ok {
+		c, _ = verifCounters.LoadOrStore(name, new(int64))
+	}
+	atomic.AddInt64(c.(*int64), 1)
+	if f, ok := verifCallbacks.Load(name); ok {
+		f.(func())()
+	}
+}
+
+// VerifSetPoint installs (or with nil removes) the callback of a named point.
+func VerifSetPoint(name string, f func()) {
+	if f == nil {
+		verifCallbacks.Delete(name)
+		return
+	}
+	verifCallbacks.Store(name, f)
+}
+
+// VerifPointCount tells how often a named point was passed in this process.
+func VerifPointCount(name string) int64 {
+	if c, ok := verifCounters.Load(name); ok {
+		return atomic.LoadInt64(c.(*int64))
+	}
+	return 0
+}
+
+// VerifCompactionIterWrap may replace the input iterators of a compaction (fault injection).
+var VerifCompactionIterWrap func([]sstables.SSTableMergeIteratorContext) []sstables.SSTableMergeIteratorContext
+
+func verifWrapCompactionInputs(its []sstables.SSTableMergeIteratorContext) []sstables.SSTableMergeIteratorContext {
+	if f := VerifCompactionIterWrap; f != nil {
+		return f(its)
+	}
+	return its
+}
+
+// VerifForceRotate does exactly what a size-triggered rotation does: under the write lock, rotate the WAL and
+// hand the write store to the flusher.
+func (db *DB) VerifForceRotate() error {
+	db.rwLock.Lock()
+	defer db.rwLock.Unlock()
+	if !db.open {
+		return ErrNotOpenedYet
+	}
+	if db.closed {
+		return ErrAlreadyClosed
+	}
+	return db.rotateWalAndFlushMemstore()
+}
+
+// VerifCompactOnce runs one compaction cycle synchronously (what one tick of the background compactor does)
+// and returns the metadata of what was selected and written (nil when nothing was selected).
+func (db *DB) VerifCompactOnce() (*proto.CompactionMetadata, error) {
+	metadata, err := executeCompaction(db)
+	if err != nil || metadata == nil {
+		return metadata, err
+	}
+	verifPoint("compaction.beforeReflect")
+	return metadata, db.sstableManager.reflectCompactionResult(metadata)
+}
+
+// VerifExecuteCompactionOnly runs the merge of one cycle but does not reflect the result.
+func (db *DB) VerifExecuteCompactionOnly() (*proto.CompactionMetadata, error) {
+	return executeCompaction(db)
+}
+
+type VerifTable struct {
+	BasePath string
+	MetaData *sProto.MetaData
+}
+
+// VerifLiveTables lists the live tables oldest to newest.
+func (db *DB) VerifLiveTables() []VerifTable {
+	db.sstableManager.managerLock.RLock()
+	defer db.sstableManager.managerLock.RUnlock()
+	var out []VerifTable
+	for _, r := range db.sstableManager.allSSTableReaders {
+		out = append(out, VerifTable{BasePath: r.BasePath(), MetaData: pb.Clone(r.MetaData()).(*sProto.MetaData)})
+	}
+	return out
+}
+
+// VerifFlushIdle is true when every memstore handed to the flusher has been flushed and installed.
+func VerifFlushIdle() bool {
+	return VerifPointCount("rotate.handoff") == VerifPointCount("flusher.done")
+}
